@@ -258,10 +258,18 @@ Proof.
   now rewrite Hg.
 Qed.
 Lemma refusal_unbound : forall g,
-  In (g_name g) ["rxx"; "ryy"; "rzz"; "crx"; "cry"; "crz"; "cp"] -> g_param_ok g = false -> basis_of g = Refused.
+  In (g_name g) ["rxx"; "ryy"; "rzz"; "crx"; "cry"; "crz"; "cp"] -> g_has_param g = true -> g_param_ok g = false ->
+  basis_of g = Refused.
 Proof.
-  intros g HIn Hp. unfold basis_of, theta_guard. simpl in HIn.
-  repeat destruct HIn as [E|HIn]; try (rewrite <- E; simpl; now rewrite Hp). contradiction.
+  intros g HIn Hh Hp. unfold basis_of, theta_guard. simpl in HIn.
+  repeat destruct HIn as [E|HIn]; try (rewrite <- E; simpl; now rewrite Hh, Hp). contradiction.
+Qed.
+(* a gate carrying a parameterised registered name but no parameter: gate.params[0] raises IndexError *)
+Lemma crash_missing_param : forall g,
+  In (g_name g) ["rxx"; "ryy"; "rzz"; "crx"; "cry"; "crz"; "cp"] -> g_has_param g = false -> basis_of g = Crashed.
+Proof.
+  intros g HIn Hh. unfold basis_of, theta_guard. simpl in HIn.
+  repeat destruct HIn as [E|HIn]; try (rewrite <- E; simpl; now rewrite Hh). contradiction.
 Qed.
 Lemma refusal_matrix : forall g,
   ~ In (g_name g) registered -> g_matrix_ok g = false -> basis_of g = Refused.
@@ -275,7 +283,7 @@ Proof.
   rewrite Hm. now destruct (g_is_gate g && Nat.eqb (g_nq g) 2).
 Qed.
 Lemma accepted_otherwise : forall g,
-  (In (g_name g) registered -> g_param_ok g = true) ->
+  (In (g_name g) ["rxx"; "ryy"; "rzz"; "crx"; "cry"; "crz"; "cp"] -> g_has_param g = true /\ g_param_ok g = true) ->
   (~ In (g_name g) registered -> g_is_gate g = true /\ g_nq g = 2 /\ g_matrix_ok g = true) ->
   exists b, basis_of g = Ok b.
 Proof.
@@ -283,7 +291,8 @@ Proof.
   repeat match goal with
   | |- context [String.eqb (g_name g) ?s] =>
       destruct (String.eqb_spec (g_name g) s) as [E|?];
-      [try (rewrite H1 by (rewrite E; unfold registered; simpl; repeat (first [left; reflexivity | right]))); eexists; reflexivity|]
+      [try (destruct H1 as [Ha Hb]; [rewrite E; simpl; repeat (first [left; reflexivity | right])|rewrite Ha, Hb]);
+       eexists; reflexivity|]
   end.
   destruct H2 as (Ha & Hb & Hc).
   { unfold registered; simpl. intros HH.
